@@ -588,6 +588,12 @@ def payload_to_seq(items: list[tuple[Any, Val]]) -> Val:
 
 
 def iter_setup(ev: Ev, it: ast.expr) -> tuple[str, Any]:
+	# an iterable of an opaque type is read through a declared rewrite of the whole iterable expression
+	c = ev.fn.contract
+	if c is not None and c.rewrites and ast.unparse(it) in c.rewrites and not isinstance(it, (ast.Subscript, ast.Attribute, ast.Compare, ast.BoolOp, ast.ListComp, ast.Dict)):
+		txt = ast.unparse(it)
+		ev.eng.used_rewrites.add(f'{ev.fn.label}: for ... in {txt}  ~>  {c.rewrites[txt]}')
+		it = ast.parse(c.rewrites[txt], mode='eval').body
 	if isinstance(it, ast.Call) and isinstance(it.func, ast.Name) and it.func.id == 'range':
 		args = [ev.eval(a) for a in it.args]
 		if all(a.is_conc() for a in args):
